@@ -590,9 +590,43 @@ def _shard_runs(arg):
     return res
 
 
+def in_use_cases(seed):
+    """Every short address k once as the address that is already in use: it is the only permitted one, the first or
+    the last of two, the highest / lowest of the default pool around it; the new unit must never be given k."""
+    cases = []
+    for k in range(64):
+        other = (k + 1 + seed % 5) % 64
+        lower = (k - 1 - seed % 3) % 64
+        for permitted, form in (([k], "list"), ([k, other], "list"), ([other, k], "tuple"), ([lower, k], "list"),
+                                (sorted({k, other, lower}), "set"), (None, "list")):
+            units = [{"short": k, "randoms": [0x000100 + k]}, {"short": None, "randoms": [0x000900 + k]}]
+            if permitted is None:
+                # default pool with every address but two taken: k (in use by unit 0) and `other` (free)
+                units += [{"short": a, "randoms": [0x100000 + a]} for a in range(64) if a not in (k, other)]
+            cases.append({"units": units, "permitted": permitted, "permitted_form": form, "readdress": False, "dry_run": False})
+    return cases
+
+
+def _shard_in_use(arg):
+    _, seed, stride, offset = arg
+    res = Result()
+    cases = in_use_cases(seed)
+    for case in cases[offset::stride]:
+        res.count()
+        res.nontrivial()
+        res.label("listed:address-already-in-use")
+        for sig, msg in run_case(case):
+            res.violation(sig, case, msg)
+    if offset == 0:
+        res.sample(cases[5], cls="permitted address already in use")
+    return res
+
+
 def _shard(arg):
     if arg[0] == "inter":
         return _shard_inter(arg[1:])
+    if arg[0] == "in-use":
+        return _shard_in_use(arg)
     if arg[0] == "runs":
         return _shard_runs(arg)
     seed, n = arg
@@ -763,6 +797,8 @@ def run(ctx):
     shards = [(ctx.seed * 1000 + k, max(1, n // 16)) for k in range(16)]
     for k in range(8):
         shards.append(("runs", ctx.seed, 8, k))
+    for k in range(8):
+        shards.append(("in-use", ctx.seed, 8, k))
     # two Commissioning runs in flight at the same time, each on its own bus
     for k in range(16):
         shards.append(("inter", "fixed", ctx.seed, not ctx.quick, 16, k))
